@@ -327,3 +327,101 @@ Proof.
   pose proof (pump_tokens_of_lexer s ms ts R T) as F. rewrite Forall_forall in F.
   eapply lex_located; [exact T|apply F; exact Hm].
 Qed.
+
+(* ---------- every parse error is located (closing the partial statement with C02's
+   parse_error_located: the error token is eof_tok or the token at index length - rem) ---------- *)
+From Falco Require Proofs.ParseLocated Proofs.ParseLocated2.
+
+Lemma pump_loop_shape inner e : forall outer ts level ms,
+  pump_loop outer inner e ts level = OK ms ->
+  exists body m, ms = body ++ [m] /\ is_eof (mtok m) = true /\
+                 Forall (fun x => is_eof (mtok x) = false) body.
+Proof.
+  induction outer as [|o IH]; intros ts level ms R; [discriminate|].
+  cbn [pump_loop] in R.
+  destruct (read_peek inner e ts level [] false 0%N) as [[[m ts1] lv1]| | |]; cbn [bind] in R; try discriminate.
+  destruct (is_eof (mtok m)) eqn:E.
+  - injection R as <-. exists [], m. auto.
+  - destruct (pump_loop o inner e ts1 lv1) as [ms'| | |] eqn:R'; try discriminate.
+    injection R as <-. destruct (IH _ _ _ R') as (body & m' & -> & E' & F).
+    exists (m :: body), m'. repeat split; auto.
+Qed.
+
+Lemma pump_shape s ms : pump s = OK ms ->
+  exists body m, ms = body ++ [m] /\ is_eof (mtok m) = true /\
+                 Forall (fun x => is_eof (mtok x) = false) body.
+Proof.
+  intros R. destruct (pump_unfold s ms R) as (ts & _ & e & _ & _ & _ & P).
+  unfold pump_all in P. eapply pump_loop_shape. exact P.
+Qed.
+
+Lemma to_ptoks_body : forall body m,
+  Forall (fun x => is_eof (mtok x) = false) body -> is_eof (mtok m) = true ->
+  to_ptoks (body ++ [m]) = map (fun x => conv (mtok x)) body.
+Proof.
+  induction body as [|b body IH]; intros m F E; cbn [app to_ptoks map].
+  - rewrite E. reflexivity.
+  - inversion F; subst. rewrite H1. f_equal. apply IH; assumption.
+Qed.
+
+Lemma conv_not_eof t : is_eof t = false ->
+  ParseBase.ttype_eqb (ParseBase.typ (conv t)) TokenTypes.T_EOF = false.
+Proof.
+  intros H. destruct (ParseBase.ttype_eqb _ _) eqn:E; [|reflexivity].
+  apply ttype_eqb_eq in E. cbn [conv ParseBase.typ] in E.
+  apply ttype_of_name in E; [|discriminate].
+  unfold is_eof in H. rewrite E in H. discriminate.
+Qed.
+
+Lemma parse_mode_located fok mode ts k t rem :
+  parse_mode fok mode ts = ParseBase.PErr k t rem -> ParseLocated.located ts t rem.
+Proof.
+  destruct mode; cbn [parse_mode]; intros H;
+    [eapply ParseLocated2.parse_vcl_error_located|eapply ParseLocated2.parse_snippet_error_located
+     |eapply ParseLocated2.parse_error_located]; exact H.
+Qed.
+
+(* the pumped token a parse error refers to ([err_meta], what the driver prints and the
+   correspondence compares with the *ParseError of the real parser) exists, is the image of the
+   model's error token - or the EOF meta for an error at the end of input - and designates its text *)
+Theorem parse_error_located fok mode s k t rem :
+  parse_source fok mode s = ParseBase.PErr k t rem ->
+  exists ms m, pump s = OK ms /\ err_meta ms t rem = Some m /\ In m ms /\
+               designates (dec_all s) (mtok m) /\
+               (conv (mtok m) = t \/ (t = ParseBase.eof_tok /\ is_eof (mtok m) = true)).
+Proof.
+  unfold parse_source. destruct (pump_ok s) as (ms & R & _). intros H. rewrite R in H.
+  apply parse_mode_located in H.
+  destruct (pump_shape s ms R) as (body & me & E & Ee & Fb).
+  assert (TP : to_ptoks ms = map (fun x => conv (mtok x)) body) by (rewrite E; apply to_ptoks_body; assumption).
+  assert (Len : length (to_ptoks ms) = length body) by (rewrite TP; apply map_length).
+  exists ms.
+  assert (Fin : forall m, err_meta ms t rem = Some m -> In m ms ->
+                (conv (mtok m) = t \/ (t = ParseBase.eof_tok /\ is_eof (mtok m) = true)) ->
+                exists m0, pump s = OK ms /\ err_meta ms t rem = Some m0 /\ In m0 ms /\
+                  designates (dec_all s) (mtok m0) /\
+                  (conv (mtok m0) = t \/ (t = ParseBase.eof_tok /\ is_eof (mtok m0) = true))).
+  { intros m H1 H2 H3. exists m. repeat split; auto. eapply pump_tokens_located; eauto. }
+  destruct H as [Heof|[[Hr1 Hr2] Hn]].
+  - (* an error on the EOF behind the last token: the EOF meta *)
+    apply (Fin me).
+    + unfold err_meta. rewrite Heof. cbn [ParseBase.eof_tok ParseBase.typ ParseBase.ttype_eqb].
+      change (ParseBase.ttype_eqb TokenTypes.T_EOF TokenTypes.T_EOF) with true. cbv iota.
+      rewrite Len, E. rewrite nth_error_app2 by lia.
+      replace (length body - length body)%nat with 0%nat by lia. reflexivity.
+    + rewrite E. apply in_or_app. right. left. reflexivity.
+    + right. split; assumption.
+  - (* an error on the token at index length - rem *)
+    rewrite Len in Hn, Hr2. rewrite TP in Hn.
+    set (i := (length body - rem)%nat) in *.
+    assert (Hi : (i < length body)%nat) by (unfold i; lia).
+    rewrite nth_error_map in Hn.
+    destruct (nth_error body i) as [mi|] eqn:Ni; cbn [option_map] in Hn; [|discriminate]. injection Hn as Hn.
+    assert (Hin : In mi body) by (eapply nth_error_In; eauto).
+    rewrite Forall_forall in Fb. pose proof (Fb mi Hin) as Hne.
+    apply (Fin mi).
+    + unfold err_meta. rewrite <- Hn, (conv_not_eof _ Hne), Len. fold i.
+      rewrite E, nth_error_app1 by exact Hi. exact Ni.
+    + rewrite E. apply in_or_app. left. exact Hin.
+    + left. exact Hn.
+Qed.
